@@ -231,6 +231,7 @@ def r_sibling(c):
                     and ast.unparse(iff.test.func) == "isinstance" \
                     and isinstance(iff.test.args[0], ast.Name) \
                     and iff.test.args[0].id in _loop_targets(iff) \
+                    and iff.test.args[0].id == _chain_subject(iff) \
                     and ast.unparse(iff.test.args[1]) in ("INT_CLASSES", "NormalizedSlice"):
                 ty = ast.unparse(iff.test.args[1])
                 iv = iff.test.args[0].id
@@ -282,6 +283,21 @@ def r_sibling_adv(c):
                     f"{mn} and {names[0]} compute {what} differently "
                     f"(`{got[mn][k][:70]}` vs `{ref[k][:70]}`): one of the two sibling "
                     "lowerings places the index arrays on the wrong output axes")
+
+
+def _chain_subject(iff):
+    """the name the if/elif chain ``iff`` belongs to dispatches on: the name tested
+    by isinstance in the HEAD of the chain"""
+    ch, p = iff, iff._parent
+    while isinstance(p, ast.If) and p.orelse == [ch]:
+        ch, p = p, p._parent
+    t = ch.test
+    if isinstance(t, ast.UnaryOp) and isinstance(t.op, ast.Not):
+        t = t.operand
+    if isinstance(t, ast.Call) and ast.unparse(t.func) == "isinstance" and t.args \
+            and isinstance(t.args[0], ast.Name):
+        return t.args[0].id
+    return None
 
 
 def _loop_targets(iff):
